@@ -237,7 +237,7 @@ func (vc *VC) loopCtx(fr *frame, l *LoopInfo, hdr, envNode *Node, phiVals map[*s
 		return vc.resolveAtHeader(fr, l, hdr, envNode, phiVals, st, name)
 	}
 	entryLookup := func(name string) (Val, bool) { return vc.paramLookup(fr, name) }
-	return &SpecCtx{vc: vc, lookup: lookup, st: st, oldSt: fr.entrySt, oldLookup: entryLookup, pkg: fr.fn.Pkg.Pkg}
+	return &SpecCtx{vc: vc, lookup: lookup, st: st, oldSt: fr.entrySt, oldLookup: entryLookup, pkg: fr.fn.Pkg.Pkg, fnName: fr.fn.Name()}
 }
 
 func (vc *VC) evalLoopClauseAt(fr *frame, l *LoopInfo, hdr, envNode *Node, phiVals map[*ssa.Phi]Val, st *State, ex Expr) (string, error) {
